@@ -26,8 +26,8 @@ ID = 'C06'
 LEAN_MODULE = 'Pycel.Props.C06'
 NS = 'Pycel.Iter.'
 THEOREMS = [NS + t for t in (
-    'C06_bounded', 'C06_bounded_generic', 'C06_stop_honest', 'C06_fixed_point_bound', 'C06_fixed_point_bound_cells',
-    'C06_pass_contracts', 'C06_acyclic', 'C06_acyclic_history', 'C06_bounded_arg')]
+    'C06_consts', 'C06_default_limits', 'C06_bounded', 'C06_bounded_generic', 'C06_stop_honest', 'C06_fixed_point_bound', 'C06_fixed_point_bound_cells',
+    'C06_pass_contracts', 'C06_result_bound_partial', 'C06_result_bound', 'C06_acyclic', 'C06_acyclic_history', 'C06_bounded_arg')]
 DESIGN_REF = 'DESIGN.md §7 C06'
 RULE = ('whole histories (set_value / evaluate(addr(s), iterations, tolerance)) over small workbooks in iterative mode: '
         'every 2-cell linear circular system over a coefficient pool x the (iterations, tolerance) grid (exhaustive), '
@@ -44,7 +44,7 @@ ASSUMPTIONS = [
 ]
 TRUSTED = ['modelled, not verified: compilation of a formula to its read order (Python left-to-right evaluation), '
            'openpyxl workbook access, IEEE arithmetic']
-REQUIRED_BUCKETS = ['lin:nodata', 'lin:stored', 'lin:range', 'acyc', 'acyc:range', 'fixture', 'odd', 'lin:dictcfg',
+REQUIRED_BUCKETS = ['tie', 'lin:nodata', 'lin:stored', 'lin:range', 'acyc', 'acyc:range', 'fixture', 'odd', 'lin:dictcfg',
                     'lin:wbcfg']
 PLUGIN = 'harness.props.c06'
 
@@ -703,8 +703,32 @@ def cases(tier, rng):
             yield c
 
 
+def tie_cases():
+    """Exact ties of close_enough.  A1 = 1*B1 + D (counted), B1 = A1: A1 moves by exactly D in every pass.
+    With tol = 100000 * 2^k the bound (1 + rel) * tol = 100001 * 2^k is exact in the float arithmetic of the code
+    ((1 + 0.00001) * 100000.0 == 100001.0) and in the model, so D = bound is a true tie (stops: `<=`), one unit above
+    continues to the limit, D = tol and one unit below stop.  Both signs, decimal and dyadic scales, tolerance given
+    as argument and as configuration, stored (0 -> D is a number/number change) workbooks."""
+    assert (1 + 0.00001) * 100000.0 == 100001.0
+    for k in (0, -20, -7):
+        sc = Fraction(2) ** k
+        tol = 100000 * sc
+        bound = 100001 * sc
+        eps = sc / 1024
+        for sign in (1, -1):
+            for D in (bound, bound + eps, bound - eps, tol, 2 * bound):
+                rows = [[(Fraction(1), ('r', 1))], [(Fraction(1), ('r', 0))]]
+                for how in ('arg', 'dict'):
+                    cfg = _cfg() if how == 'arg' else _cfg('dict', 6, tok_of(tol))
+                    ta = tok_of(tol) if how == 'arg' else None
+                    ops = [_ev([0], 5 if how == 'arg' else None, ta, 0), _ev([1, 0], 4, ta, 0), _ev([0], 1, ta, 0)]
+                    yield lin_case(rows, [sign * D, Fraction(0)], [], 'stored', cfg, ops,
+                                   stored=[Fraction(0), Fraction(0)], fam='tie')
+
+
 def _cases(tier, rng):
     thorough = tier == 'thorough'
+    yield from tie_cases()
     yield from odd_cases()
     yield from grid_cases()
     yield from small_scope()
@@ -773,6 +797,8 @@ def eff_tol(case, op):
 def oracles(results):
     for r in results:
         case = r.case
+        if r.model and '!oof' in r.model:
+            yield case, 'the model ran out of recursion fuel (hypothesis of C06_result_bound_partial violated)'
         if r.impl.startswith('!'):
             yield case, f'evaluate raised / returned a non-value: {r.impl}'
             continue
